@@ -846,6 +846,11 @@ func Compare(refTree *Tree, compTrees <-chan Trees, tips, comparetreeidentical b
 									common++
 								}
 							}
+							// Bipartitions specific to the reference tree:
+							// the trees are different
+							if sametree && total-common != 0 {
+								sametree = false
+							}
 						}
 					}
 				}
